@@ -15,9 +15,9 @@ RULE = ("one case = (method family incl. FSAL / implicit with finite-difference 
         "invocations; distinct by (method, options, seed)")
 ASSUMPTIONS = ["njev may count since construction or since the last reset (the statement fixes the reset convention only for nfev)"]
 FLOORS = {"quick": {"runs": 120, "callback_invocations": 1500, "nfev_checks": 1500, "njev_checks": 100, "runs_with_rejections": 20, "runs_with_failure": 15, "runs_with_reset": 30,
-                    "dt_assignments_checked": 150, "terminal_landings": 10},
+                    "dt_assignments_checked": 150, "terminal_landings": 10, "facade_runs": 20, "dt_assignments_across_calls": 20, "shared_rhs_runs": 14},
           "thorough": {"runs": 1200, "callback_invocations": 15000, "nfev_checks": 15000, "njev_checks": 1000, "runs_with_rejections": 200, "runs_with_failure": 150,
-                       "runs_with_reset": 300, "dt_assignments_checked": 1500, "terminal_landings": 100}}
+                       "runs_with_reset": 300, "dt_assignments_checked": 1500, "terminal_landings": 100, "facade_runs": 200, "dt_assignments_across_calls": 200, "shared_rhs_runs": 140}}
 METHODS = ["RK45CKSolver", "DOPRI45", "RK4Solver", "EulerSolver", "HeunEulerSolver", "ABAs5o6HSolver", "SymplecticEulerSolver", "BackwardEuler", "RadauIIA5",
            "GaussLegendre4", "LobattoIIIA2", "CrankNicolson", "RK8713MSolver", "R:MidpointSolver:3", "R:EulerSolver:4", "R:RK4Solver:2"]
 CASE_TIMEOUT = 900
@@ -35,10 +35,188 @@ def gen_cases(tier, seed):
         cases.append(dict(method=m, direction=int(rng.choice([-1, 1])), dense=bool(rng.random() < 0.4), events=str(rng.choice(["none", "none", "nonterminal", "terminal"])),
                           user_jac=bool(rng.random() < 0.5), big_dt=bool(rng.random() < 0.35), fail_at=(int(rng.integers(20, 200)) if rng.random() < 0.2 else None),
                           reset=bool(rng.random() < 0.35), set_dt=bool(rng.random() < 0.6), pseed=int(rng.integers(1 << 30)), cost=3))
+    plain = [m for m in METHODS if not m.startswith("R:")]
+    for i in range(24 if tier == "quick" else 240):
+        # the functional facade with t_eval (one integrate call per output time) and user callbacks: counters and the dt-assignment clause
+        # across the boundaries of those calls
+        cases.append(dict(kind="facade", method=plain[i % len(plain)], direction=int(rng.choice([-1, 1])), n_eval=int(rng.integers(2, 7)), dense=bool(rng.random() < 0.3),
+                          pseed=int(rng.integers(1 << 30)), cost=4))
+    for i in range(16 if tier == "quick" else 160):
+        # several systems built from ONE wrapped right-hand side: every system counts its own evaluations
+        cases.append(dict(kind="shared_rhs", method=plain[(3 * i) % len(plain)], method2=plain[(3 * i + 1 + i % 5) % len(plain)], direction=int(rng.choice([-1, 1])),
+                          wrap=str(rng.choice(["DiffRHS", "prettifier"])), user_jac=bool(rng.random() < 0.5), pseed=int(rng.integers(1 << 30)), cost=4))
     return cases
 
 
+def _facade(spec):
+    import desolver as de
+    M = util.methods()
+    info = M[spec["method"]]
+    d = spec["direction"]
+    prob = Manufactured(2, spec["pseed"], direction=d)
+    rng = rng_for(2003, spec["pseed"])
+    t0, L = 0.1, 2.0
+    tf = t0 + d * L
+    cnt = {"f": 0}
+
+    def f(t, y, **kw):
+        out = prob.rhs(t, y)
+        cnt["f"] += 1
+        return out
+    rec = util.Rec(sig="facade|%s|%d|%d|%s|%d" % (spec["method"], d, spec["n_eval"], spec["dense"], spec["pseed"] % 17))
+    feats = {"kind": "facade", "method": spec["method"], "family": info["family"], "direction": d, "dense": spec["dense"]}
+    t_eval = sorted(float(x) for x in (t0 + d * L * rng.uniform(0.1, 1.0, spec["n_eval"])))
+    tev = set(t_eval)
+    calls = []
+    assigned = {}      # row count at assignment -> (assigned dt, row time is an output time)
+    slogs = []
+
+    def cb1(s):
+        if not slogs:
+            slogs.append(StepLog(s.integrator))       # (installed at the first callback: the facade owns the system)
+        calls.append((1, len(s), s.nfev, cnt["f"], float(s.t[-1])))
+
+    def cb2(s):
+        calls.append((2, len(s), s.nfev, cnt["f"], float(s.t[-1])))
+        at_output = float(s.t[-1]) in tev
+        if at_output or len(s) % 3 == 0:
+            # magnitudes cycle over fractions of the initial step (a geometric halving would never reach the target with a fixed-step method)
+            mag = (L / 16.0) * (0.5, 0.8, 0.65, 1.0)[len(assigned) % 4]
+            s.dt = float(np.sign(float(s.dt))) * mag
+            assigned[len(s)] = (float(s.dt), at_output)
+    try:
+        res = de.solve_ivp(f, (t0, tf), prob.ystar(t0).astype(np.float64), method=info["cls"], t_eval=np.array(t_eval), dense_output=spec["dense"], first_step=L / 16.0,
+                           rtol=1e-6, atol=1e-8, callbacks=[cb1, cb2])
+    except Exception as e:
+        if type(e).__name__ in ("CaseTimeout", "NoProgress") or type(getattr(e, "__cause__", None)).__name__ in ("CaseTimeout", "NoProgress"):
+            raise
+        rec.violate("facade_raised", type(getattr(e, "__cause__", None) or e).__name__, feats, err=repr(e)[:300])
+        return rec.out()
+    system = res.ode_system
+    rec.bump("facade_runs")
+    rec.bump("nfev_checks")
+    if system.nfev != cnt["f"] or res.nfev != system.nfev:
+        rec.violate("nfev", "nfev_differs_from_completed_calls", dict(feats, where="facade"), nfev=system.nfev, result_nfev=res.nfev, completed=cnt["f"])
+    if res.njev != system.njev:
+        rec.violate("njev", "facade_njev_differs_from_system", feats, result=res.njev, system=system.njev)
+    for (_w, _n, nfev, comp, _t) in calls:
+        rec.bump("nfev_checks")
+        if nfev != comp:
+            rec.violate("nfev", "nfev_inside_callback_differs_from_completed_calls", feats, nfev=nfev, completed=comp)
+            break
+    rec.bump("callback_invocations", len(calls))
+    seq = [c[0] for c in calls]
+    if seq != [1, 2] * (len(seq) // 2) or len(seq) % 2:
+        rec.violate("callback_order", "callbacks_not_invoked_in_the_order_given", feats, first=seq[:8])
+    n = len(system)
+    lens = [c[1] for c in calls if c[0] == 1]
+    if lens != list(range(2, n + 1)):
+        rec.violate("callback_count", "not_exactly_one_invocation_per_recorded_step", feats, invocations=len(lens), steps=n - 1)
+    rec.nontrivial = len(calls) >= 6
+    # dt assignments: first attempt of the next step, also when the next step belongs to the next integrate() call of the facade
+    if slogs:
+        t = np.asarray(system.t)
+        first_attempt = {}
+        for a in slogs[0].attempts:
+            first_attempt.setdefault(a["t"], a["h"])
+        ends = [x for x in (t_eval if d > 0 else t_eval[::-1])]
+        for ln, (dtv, at_output) in assigned.items():
+            if ln >= n:
+                continue
+            t_here = float(t[ln - 1])
+            if t_here not in first_attempt:
+                continue
+            nxt = [e for e in ends if d * (e - t_here) > 0]
+            if not nxt:
+                continue
+            remaining = abs(nxt[0] - t_here)
+            if at_output:
+                # a new integrate(t) call starts here: a step longer than the whole call is halved to half the call's span by the library
+                want = dtv if abs(dtv) <= remaining else np.sign(dtv) * 0.5 * remaining
+                rec.bump("dt_assignments_across_calls")
+            else:
+                want = dtv if abs(dtv) <= remaining else np.sign(dtv) * remaining
+            rec.bump("dt_assignments_checked")
+            got = first_attempt[t_here]
+            if abs(got - want) > 1e-12 * max(1.0, abs(want)):
+                rec.violate("callback_dt", "dt_assigned_in_callback_not_used_for_the_next_step", dict(feats, across_calls=bool(at_output)), assigned=dtv, first_attempt=got, remaining=remaining)
+                break
+    rec.sample = {"spec": spec, "rows": n, "nfev": int(system.nfev), "callback_invocations": len(calls), "assignments": len(assigned)}
+    return rec.out()
+
+
+def _shared_rhs(spec):
+    import desolver as de
+    M = util.methods()
+    d = spec["direction"]
+    prob = Manufactured(2, spec["pseed"], direction=d)
+    t0, L = 0.1, 1.5
+    tf = t0 + d * L
+    cur = {"who": "ctor"}
+    cnt = {}
+    jcnt = {}
+
+    def f(t, y, **kw):
+        out = prob.rhs(t, y)
+        cnt[cur["who"]] = cnt.get(cur["who"], 0) + 1
+        return out
+
+    def uj(t, y, **kw):
+        jcnt[cur["who"]] = jcnt.get(cur["who"], 0) + 1
+        return prob.jac(t, y)
+    if spec["wrap"] == "DiffRHS":
+        wrapped = de.DiffRHS(f)
+    else:
+        wrapped = de.rhs_prettifier("f(t, y)")(f)
+    if spec["user_jac"]:
+        wrapped.hook_jacobian_call(uj)
+    rec = util.Rec(sig="shared|%s|%s|%d|%s|%s|%d" % (spec["method"], spec["method2"], d, spec["wrap"], spec["user_jac"], spec["pseed"] % 17))
+    feats = {"kind": "shared_rhs", "method": spec["method"], "method2": spec["method2"], "direction": d, "wrap": spec["wrap"], "user_jac": spec["user_jac"]}
+    y0 = prob.ystar(t0).astype(np.float64)
+    systems = {}
+    for who, mname in (("A", spec["method"]), ("B", spec["method2"]), ("C", spec["method"])):
+        cur["who"] = who
+        systems[who] = sysrun.make_system(wrapped, y0.copy(), t0, tf, L / 12.0, M[mname]["cls"], rtol=1e-6, atol=1e-8)
+
+    def check(where):
+        for who, s_ in systems.items():
+            rec.bump("nfev_checks")
+            if s_.nfev != cnt.get(who, 0):
+                rec.violate("nfev", "nfev_of_a_system_counts_evaluations_made_through_another_system", dict(feats, where=where, system=who), nfev=int(s_.nfev), own_completed=cnt.get(who, 0),
+                            all_completed=dict(cnt))
+                return False
+            if spec["user_jac"]:
+                rec.bump("njev_checks")
+                if s_.njev != jcnt.get(who, 0):
+                    rec.violate("njev", "njev_of_a_system_counts_requests_made_through_another_system", dict(feats, where=where, system=who), njev=int(s_.njev), own=jcnt.get(who, 0), all=dict(jcnt))
+                    return False
+        return True
+    ok = check("after_construction")
+    for who in ("A", "B"):
+        if not ok:
+            break
+        cur["who"] = who
+        sysrun.call_integrate(systems[who], max_steps=20000)
+        ok = check("after_run_of_" + who)
+    if ok:
+        cur["who"] = "A"
+        systems["A"].reset()
+        rec.bump("nfev_checks")
+        if systems["A"].nfev != 0:
+            rec.violate("nfev", "nfev_not_zero_after_reset", feats, nfev=int(systems["A"].nfev))
+        if systems["B"].nfev != cnt.get("B", 0):
+            rec.violate("nfev", "reset_of_one_system_changed_the_counter_of_another", feats, nfev_B=int(systems["B"].nfev), own_completed=cnt.get("B", 0))
+    rec.bump("shared_rhs_runs")
+    rec.nontrivial = cnt.get("A", 0) > 5 and cnt.get("B", 0) > 5
+    rec.sample = {"spec": spec, "completed_calls_by_system": dict(cnt), "nfev": {k: int(v.nfev) for k, v in systems.items()}}
+    return rec.out()
+
+
 def run_case(spec):
+    if spec.get("kind") == "facade":
+        return _facade(spec)
+    if spec.get("kind") == "shared_rhs":
+        return _shared_rhs(spec)
     import desolver as de
     import desolver.differential_system as ds
     M = util.methods()
